@@ -263,6 +263,14 @@ def member_store(lhs):
                 d = b["referencedDecl"]
                 return ("param" if d["kind"] == "ParmVarDecl" else "local", d["name"], t, ".".join(reversed(names)))
             return ("expr", ctext(b), t, ".".join(reversed(names)))
+        if b.get("kind") == "ArraySubscriptExpr":
+            # `X[i].a.b`: an element of an array of structs
+            a = strip(b["inner"][0])
+            t, stars = norm_type(qual(a))
+            if stars == 1 and a.get("kind") == "DeclRefExpr" and a["referencedDecl"].get("kind") in ("ParmVarDecl", "VarDecl"):
+                d = a["referencedDecl"]
+                return ("param" if d["kind"] == "ParmVarDecl" else "local", d["name"] + "[]", t, ".".join(reversed(names)))
+            return None
         e = b
     return None
 
@@ -1695,7 +1703,7 @@ def ll(xs, f=str):
     return "[" + ", ".join(f(x) for x in xs) + "]"
 
 def ident(s):
-    return re.sub(r"[^A-Za-z0-9_]", "_", s).strip("_")
+    return re.sub(r"[^A-Za-z0-9_]", "_", s.replace(" *", "_ptr").replace("*", "_ptr")).strip("_")
 
 PRIM_POINTEES = ("char", "void")
 
@@ -1747,34 +1755,35 @@ def render(t):
          "   Numbers are what the theorems compare (types, tags, functions, fields are numbered below); strings are for the reader. -/",
          "namespace Never.Gen.OwnTab", "",
          "/-- a pointer-typed member of a struct that has a delete function: `id` = its index in `fields`, `struct`/`pointee` index `typeNames`,",
-         "`off` = byte offset (members of a union share offsets), `name` = `struct.member.path` -/",
-         "structure Field where", "  id : Nat", "  struct : Nat", "  off : Nat", "  pointee : Nat", "  inUnion : Bool", "  name : String", "  deriving Repr", "",
+         "`off` = byte offset (members of a union share offsets), `dtor` = the function that releases a value of the pointee type (the delete function",
+         "whose parameter is a pointer to it; `free` when there is none), `name` = `struct.member.path` -/",
+         "structure Field where", "  id : Nat", "  struct : Nat", "  off : Nat", "  pointee : Nat", "  dtor : Nat", "  inUnion : Bool", "  name : String", "  deriving Repr", "",
          "/-- one release performed by a delete function: `fn(v->path)`.  `field` = the member the path names (its head member when the path goes on",
          "through `->`/`[]`: then `deep`), `off` that member's offset, `guarded` = under `if (v->path != NULL)`, `cond` = index into `condTexts` of any",
          "other condition on the way (0: none), `chain` = `fn` is applied to every node of the list linked through a member of the node -/",
          "structure Rel where", "  field : Nat", "  off : Nat", "  fn : Nat", "  guarded : Bool", "  cond : Nat", "  deep : Bool", "  chain : Bool", "  text : String", "  deriving Repr", "",
-         "/-- the releases on the switch arms selected by the tags `labels` (fall-through already followed) -/",
-         "structure Arm where", "  labels : List Nat", "  rels : List Rel", "  deriving Repr", "",
-         "/-- a delete function `fn(struct * v)`: `tags` = every enumerator of the type of the member it switches on ([] when it does not switch),",
-         "`common` = releases outside the switch, `isArray` = the parameter is an array of `struct` with a size, `isOpaque` = the parameter is not a",
-         "pointer to a struct of the project (`char **`) -/",
-         "structure Del where", "  fn : Nat", "  struct : Nat", "  isArray : Bool", "  isOpaque : Bool", "  tags : List Nat", "  common : List Rel", "  arms : List Arm",
-         "  freesSelf : Bool", "  name : String", "  deriving Repr", "",
+         "/-- the releases on the switch arms selected by the tags `labels` (fall-through already followed); `mask` = Σ 2^label -/",
+         "structure Arm where", "  labels : List Nat", "  mask : Nat", "  rels : List Rel", "  deriving Repr", "",
          "/-- source of a value stored into a pointer member -/",
          "inductive Src where", "  | param    -- a parameter of the constructor: ownership handed in", "  | fresh    -- result of a call (strdup, malloc, T_new…)",
-         "  | null", "  | borrow   -- a member of / address inside something else", "  | move     -- another member of the same node", "  | other",
+         "  | null", "  | borrow   -- a member of / address inside something else, or a value whose origin the translator does not follow", "  | move     -- another member of the same node", "  | other",
          "  deriving Repr, DecidableEq", "",
          "structure Init where", "  field : Nat", "  off : Nat", "  src : Src", "  conditional : Bool", "  arg : String", "  deriving Repr", "",
          "/-- a constructor `struct * fn(…)`: `tags` = the tag values it can store (a constant; or, when the tag is a parameter, the constants passed at",
-         "every call site of the tree; [] for a struct without tag), `zeroed` = calloc/memset -/",
-         "structure Ctor where", "  struct : Nat", "  tags : List Nat", "  inits : List Init", "  zeroed : Bool", "  name : String", "  deriving Repr", "",
-         "/-- a store of the constant `tag` into the tag member of an existing node, in function `name` (`count` sites of the same shape).",
+         "every call site of the tree; [] for a struct without tag), `mask` = Σ 2^tag, `zeroed` = calloc/memset -/",
+         "structure Ctor where", "  struct : Nat", "  tags : List Nat", "  mask : Nat", "  inits : List Init", "  zeroed : Bool", "  name : String", "  deriving Repr", "",
+         "/-- a delete function `fn(struct * v)`: `tags` = every enumerator of the type of the member it switches on ([] when it does not switch),",
+         "`common` = releases outside the switch, `isArray` = the parameter is an array of `struct` with a size, `isOpaque` = the parameter is not a",
+         "pointer to a struct of the project (`char **`); `fields` / `ctors` = the pointer members and the constructors of the struct -/",
+         "structure Del where", "  fn : Nat", "  struct : Nat", "  isArray : Bool", "  isOpaque : Bool", "  tags : List Nat", "  common : List Rel", "  arms : List Arm",
+         "  fields : List Field", "  ctors : List Ctor", "  freesSelf : Bool", "  name : String", "  deriving Repr", "",
+         "/-- a store of the constant `tag` into the tag member of an existing node, in function `fn` (`count` sites of the same shape).",
          "`frm` = tags the node can have before (enclosing `case`/`==` tests, or the `case` labels at every call site of the function; []: unknown),",
          "`fresh` = the node is memory the function has just allocated; within the block of the store: `released` = (offset, function) of the members handed",
          "to a function, `stored` = (field, offset, source, offset of the member a moved value comes from), `copied` = `*y = *x` -/",
-         "structure Retag where", "  struct : Nat", "  tag : Nat", "  frm : List Nat", "  fresh : Bool", "  released : List (Nat × Nat)", "  stored : List (Nat × Nat × Src × Nat)",
+         "structure Retag where", "  fn : Nat", "  struct : Nat", "  tag : Nat", "  frm : List Nat", "  fresh : Bool", "  released : List (Nat × Nat)", "  stored : List (Nat × Nat × Src × Nat)",
          "  copied : Bool", "  count : Nat", "  name : String", "  deriving Repr", "",
-         "/-- stores into a pointer member outside constructors and delete functions (`x->member = …` with x a variable), by kind of source -/",
+         "/-- stores into a pointer member outside constructors and delete functions (`x->member = …` / `x[i].member = …` with x a variable), by kind of source -/",
          "structure Late where", "  field : Nat", "  src : Src", "  fns : String", "  deriving Repr", ""]
     C = []
     for i, n in enumerate(types):
@@ -1791,24 +1800,30 @@ def render(t):
             problems.append("%s: no field row for `%s`" % (d["fn"], r["head"]))
         return "⟨%d, %d, %d, %s, %d, %s, %s, %s⟩" % (f if f is not None else 0, r["off"], fn_id(r["fn"]), lb(r["guarded"]), cond_id(r["cond"]), lb(r["deep"]), lb(bool(r["chain"])),
                                                      ls("%s(%s)%s%s" % (r["fn"], r["path"], (" if " + r["cond"]) if r["cond"] else "", (" along ->" + r["chain"]) if r["chain"] else "")))
-    D = []
-    for d in t["dels"]:
-        arms = ",\n".join("      ⟨%s, %s⟩" % (ll([gid[x] for x in a["labels"]]), ll(a["rels"], lambda r: rel(d, r))) for a in d["arms"])
-        D.append("  { fn := %d, struct := %d, isArray := %s, isOpaque := %s, name := %s,\n    tags := %s,\n    common := %s,\n    arms := [%s],\n    freesSelf := %s }" %
-                 (fn_id(d["fn"]), tid.get(d["struct"], 0) if d["struct"] in tid else len(types), lb(d["is_array"]), lb(d["opaque"]), ls("%s  (%s)" % (d["fn"], d["file"])),
-                  ll([gid[x] for x in d["tags"]]), ll(d["common"], lambda r: rel(d, r)), ("\n" + arms) if arms else "", lb(d["frees_self"])))
+    deleter_of = {d["struct"]: d["fn"] for d in t["dels"]}
+    def field_row(i, f):
+        return "⟨%d, %d, %d, %d, %d, %s, %s⟩" % (i, tid[f["struct"]], f["off"], tid[f["pointee"]], fn_id(deleter_of.get(f["pointee"], "free")), lb(f["in_union"]), ls(f["struct"] + "." + f["path"]))
     def src(k):
         return "." + (k if k in ("param", "fresh", "null", "borrow", "move") else "other")
-    K = []
-    for c in t["ctors"]:
+    def mask(xs):
+        return sum(1 << gid[x] for x in xs)
+    def ctor_row(c):
         def init(i):
             f = fid.get((c["struct"], i["path"]))
             if f is None:
                 problems.append("%s: no field row for `%s`" % (c["fn"], i["path"])); f = 0
             return "⟨%d, %d, %s, %s, %s⟩" % (f, i["off"], src(i["kind"]), lb(i["cond"]), ls("%s <- %s%s" % (i["path"], i["kind"], (" " + i["arg"]) if i["arg"] else "")))
-        K.append("  { struct := %d, tags := %s, zeroed := %s, name := %s,\n    inits := %s }" %
-                 (tid[c["struct"]], ll([gid[x] for x in c["tags"]]), lb(c["zeroed"]), ls("%s  (%s)%s" % (c["fn"], c["file"], (" tag = parameter " + c["tag_param"]) if c["tag_param"] else "")),
-                  ll(c["inits"], init)))
+        return "{ struct := %d, tags := %s, mask := %d, zeroed := %s, name := %s,\n        inits := %s }" % \
+               (tid[c["struct"]], ll([gid[x] for x in c["tags"]]), mask(c["tags"]), lb(c["zeroed"]),
+                ls("%s  (%s)%s" % (c["fn"], c["file"], (" tag = parameter " + c["tag_param"]) if c["tag_param"] else "")), ll(c["inits"], init))
+    D = []
+    for d in t["dels"]:
+        arms = ",\n".join("      ⟨%s, %d, %s⟩" % (ll([gid[x] for x in a["labels"]]), mask(a["labels"]), ll(a["rels"], lambda r: rel(d, r))) for a in d["arms"])
+        fs = ",\n".join("      " + field_row(i, f) for i, f in enumerate(t["fields"]) if f["struct"] == d["struct"])
+        cs = ",\n".join("      " + ctor_row(c) for c in t["ctors"] if c["struct"] == d["struct"])
+        D.append("  { fn := %d, struct := %d, isArray := %s, isOpaque := %s, name := %s,\n    tags := %s,\n    common := %s,\n    arms := [%s],\n    fields := [%s],\n    ctors := [%s],\n    freesSelf := %s }" %
+                 (fn_id(d["fn"]), tid[d["struct"]], lb(d["is_array"]), lb(d["opaque"]), ls("%s  (%s)" % (d["fn"], d["file"])),
+                  ll([gid[x] for x in d["tags"]]), ll(d["common"], lambda r: rel(d, r)), ("\n" + arms) if arms else "", ("\n" + fs) if fs else "", ("\n" + cs) if cs else "", lb(d["frees_self"])))
     R = []
     for r in t["retags"]:
         def rl(x):
@@ -1816,8 +1831,8 @@ def render(t):
         def sl(x):
             f = fid.get((r["struct"], x["path"]))
             return "(%d, %d, %s, %d)" % (f if f is not None else 0, x["off"], src(x["kind"]), x["frm_off"])
-        R.append("  { struct := %d, tag := %d, frm := %s, fresh := %s, released := %s, stored := %s, copied := %s, count := %d,\n    name := %s }" %
-                 (tid[r["struct"]], gid[r["tag"]], ll([gid[x] for x in r["frm"]]), lb(r["fresh"]), ll(r["released"], rl), ll(r["stored"], sl), lb(r["copied"]), r["count"],
+        R.append("  { fn := %d, struct := %d, tag := %d, frm := %s, fresh := %s, released := %s, stored := %s, copied := %s, count := %d,\n    name := %s }" %
+                 (fn_id(r["fn"]), tid[r["struct"]], gid[r["tag"]], ll([gid[x] for x in r["frm"]]), lb(r["fresh"]), ll(r["released"], rl), ll(r["stored"], sl), lb(r["copied"]), r["count"],
                   ls("%s  (%s): %s -> %s; hands on %s; stores %s" % (r["fn"], r["file"], "|".join(r["frm"]) or "?", r["tag"],
                                                                       ", ".join("%s(%s)" % (x["fn"], x["path"]) for x in r["released"]) or "-",
                                                                       ", ".join("%s<-%s%s" % (x["path"], x["kind"], (" " + x["frm_path"]) if x["frm_path"] else "") for x in r["stored"]) or "-"))))
@@ -1834,9 +1849,10 @@ def render(t):
           "def tagNames : List String := " + ll([""] + tags, ls), "", "def fnNames : List String := " + ll(fns, ls), "",
           "def condTexts : List String := " + ll(conds, ls), ""]
     L += C
-    L += ["", "def fields : List Field := ["]
-    L.append(",\n".join("  ⟨%d, %d, %d, %d, %s, %s⟩" % (i, tid[f["struct"]], f["off"], tid[f["pointee"]], lb(f["in_union"]), ls(f["struct"] + "." + f["path"])) for i, f in enumerate(t["fields"])))
-    L += ["]", "", "def dels : List Del := [", ",\n".join(D), "]", "", "def ctors : List Ctor := [", ",\n".join(K), "]", "",
+    L += ["", "/-- number of pointer members in the table (their ids are 0 … nFields-1, struct by struct) -/", "def nFields : Nat := %d" % len(t["fields"]), ""]
+    L += ["/-- one row per delete function, in the order of the struct numbers (`dels[s]` is the delete function of type `s`) -/",
+          "def dels : List Del := [", ",\n".join(D), "]", "",
+          "def fields : List Field := dels.flatMap (·.fields)", "", "def ctors : List Ctor := dels.flatMap (·.ctors)", "",
           "def retags : List Retag := [", ",\n".join(R), "]", "", "def lates : List Late := [", ",\n".join(LT), "]", "",
           "/-- functions of the `*_new*` family that allocate no node of their own (they combine other constructors) -/",
           "def builders : List String := " + ll(t["builders"], ls), "",
@@ -1873,6 +1889,7 @@ def write(src, out_dir=OUT_DIR):
             pass
     out = os.path.join(out_dir, "OwnTab.lean")
     txt = render(t)
+    t["problems"] = t["problems"] + [p for p in t.get("render_problems", []) if p not in t["problems"]]
     old = open(out).read() if os.path.exists(out) else None
     if old != txt:
         open(out, "w").write(txt)
